@@ -53,7 +53,11 @@ PLANS["C06"] = dict(stages=[dict(bin="world", world="meta", prop="C06", share=1.
     rule="each evaluation is one seeded history of topic/channel create/delete/pause/unpause (HTTP and SUB), idle points, second-instance attempts and graceful restarts against the real nsqd whose file-system calls go through simos; EVERY hook boundary of every metadata write (before/after open, write, sync, close, rename), every acknowledgement and every idle point is a kill point: nsqd.dat must parse there, and a fresh nsqd started on that file must show a registry the daemon passed through since the last idle point and reflect every acknowledged pause; one third of the runs inject EIO/ENOSPC/short writes into the metadata write; distinct = distinct schedule fingerprint; non-trivial = more than 3 kill points",
     components=dict(real=REAL_Q + ["internal/dirlock (real flock)"], stub=STUB_Q + ["simos hooks around os file calls (forwarding to the real tmpfs)"]), assumptions=ASSUME + ["SIGKILL model: every completed system call is visible after the kill, nothing of a call not yet made is"], crash_property="C06")
 
-WORLD_BIN = {"queue": "world", "lookupd": "world", "proto": "world", "meta": "world"}
+PLANS["C16"] = dict(stages=[dict(bin="world", world="cluster", prop="C16", share=1.0)], quick_s=30, thorough_s=600, level="exploration",
+    rule="each evaluation is one seeded run of the cluster world: one real nsqd configured with 1-3 real nsqlookupd (and, in half of the runs, a hostile stub lookupd answering negative/oversized length prefixes, garbage, truncated frames, stalls); topic/channel churn and publishes on the nsqd interleaved with lookupd faults (refuse, blackhole, accept-then-close, connection resets, restart with empty state), runtime reconfiguration of the lookupd list and clock advances over several 15 s heartbeats; oracles: nsqd stays up and answers within the documented blocking-lookup bound, a topic's first message reaches every channel all lookupds already knew, and 55 simulated seconds after the last fault every configured real lookupd's /debug lists this nsqd for exactly its current topics and channels; distinct = distinct schedule fingerprint; non-trivial = at least one fault fired",
+    components=dict(real=REAL_Q + REAL_L + ["internal/clusterinfo (lookupd channel query)"], stub=STUB_Q + ["hostile stub lookupd (listener in the harness)"]), assumptions=ASSUME, crash_property="C16")
+
+WORLD_BIN = {"queue": "world", "lookupd": "world", "proto": "world", "meta": "world", "cluster": "world"}
 SELFTEST_WORLDS = [("queue", "ALL"), ("queue", "C08"), ("queue", "C05"), ("lookupd", "C14"), ("lookupd", "C15")]
 ALL_TARGETS = ["world"]
 
@@ -83,9 +87,11 @@ MANIFEST_TEXT["C10"] = mt("seeded search over generated HTTP requests against th
 
 MANIFEST_TEXT["C06"] = mt("fault enumeration: every simos hook boundary of every metadata write in every generated history is a SIGKILL point (plus acknowledgements and idle points); at each the file must be absent or a complete document, and a fresh nsqd on that snapshot must load and show a registry state the original passed through since the last idle point, with acknowledged pauses reflected; write-fault injection keeps the previous file; a second instance on a data path in use is refused. Histories are sampled by seed; kill points within a history are enumerated exhaustively.", "DESIGN.md 3 C06", "deterministic simulation: kill-point enumeration over simos hooks + restart comparison")
 
+MANIFEST_TEXT["C16"] = mt("seeded search over interleavings of nsqd topic/channel churn with lookupd fault sequences (network faults from simnet, restarts, a hostile stub) against real nsqd and nsqlookupd; oracles: liveness of nsqd (crash attribution, answer latency bound), channel pre-creation on first publish, bounded-time convergence of every lookupd's registrations to nsqd's registry once faults stop.", "DESIGN.md 3 C16", "deterministic simulation: fault injection on the lookupd links + convergence oracle")
+
 NOT_APPLICABLE = {
  "C11": "not yet built in this session",
- "C16": "not yet built in this session",
+
  "C17": "not yet built in this session", "C18": "not yet built in this session", "C19": "not yet built in this session",
  "C20": "not yet built in this session",
 }
